@@ -496,7 +496,8 @@ def gen_across_cases(rng, rounds):
 
 
 SLOT_VALUE = {'real': 0.5, 'pos': 1.5, 'nz': 1.5, 'key': 1.0, 'bool01': 1.0, 'var': 0.5}
-SETUPS = ['prepare-gvc', 'prepare-gvd', 'create_function', 'create_function_g', 'objective-f', 'objective-fg', 'objective-fgh']
+SETUPS = ['prepare-gvc', 'prepare-gvd', 'create_function', 'create_function_g', 'objective-f', 'objective-fg', 'objective-fgh',
+          'fresh-gvc', 'fresh-gvd', 'fresh-biogeme']
 
 
 def simulate_script(c, tree, rows, script):
@@ -535,8 +536,8 @@ def gen_evalhist(rng, c, idx):
     kind = c['kind']
     rows = [dict(r) for r in c['rows']]
     setup = SETUPS[idx % len(SETUPS)]
-    if has_heads(c['fault'], {'Derive', 'Integrate'}) and setup not in ('prepare-gvc', 'create_function', 'objective-f'):
-        setup = ['prepare-gvc', 'create_function', 'objective-f'][idx % 3]
+    if has_heads(c['fault'], {'Derive', 'Integrate'}) and setup not in ('prepare-gvc', 'create_function', 'objective-f', 'fresh-gvc'):
+        setup = ['prepare-gvc', 'create_function', 'objective-f', 'fresh-gvc'][idx % 4]
     ttype = next((f[2] for f in FRAMES if f'{f[0]}.{f[1]}' == c['frame']), 'real')
     mode = None
     if kind == 'missing-column' and idx % 2 == 0:
@@ -772,9 +773,9 @@ def eval_methods(ctx, sm, coq_items, coq_meta):
 
 # =========================================================================================== stream: histories, draw types
 def stream_histories(ctx):
-    sh = ctx.stream('eval_histories', 'REPEATED evaluations with the same identifiers (expr.prepare then get_value_c / '
+    sh = ctx.stream('eval_histories', 'REPEATED evaluations of the same expression objects, with stored identifiers (expr.prepare then get_value_c / '
                     'get_value_and_derivatives with prepare_ids=False; the function of create_function; f / f_g / f_g_h of '
-                    'create_objective_function): between the calls a column read by the formula is renamed / dropped / restored, '
+                    'create_objective_function) or with fresh ones at each call (prepare_ids=True, a new BIOGEME object): between the calls a column read by the formula is renamed / dropped / restored, '
                     'a choice column is edited or rescaled, or another member of a top / inner catalog is selected, in both '
                     'orders (valid then faulty, faulty then valid, valid-faulty-valid); every call is judged: BiogemeError naming '
                     'the element when the specification is faulty AT THAT CALL, a value otherwise; the verdict of each call is also '
